@@ -75,7 +75,12 @@ def main():
     if plan.zqueries and not args.only:
         import threading
         zbox = {}
-        zthread = threading.Thread(target=lambda: zbox.setdefault("r", plan.run_z(ctx, args.tier)))
+        def zrun():
+            try:
+                zbox["r"] = plan.run_z(ctx, args.tier)
+            except Exception as e:  # never let a tool problem look like a verdict
+                zbox["r"] = [{"name": "z3_queries", "status": f"error: {e}", "desc": "engine Z failed to run"}]
+        zthread = threading.Thread(target=zrun)
         zthread.start()
     results = runner.run_pool(harnesses, jobs=args.jobs, log_dir=log_dir) if harnesses else []
     if zthread:
